@@ -3,6 +3,7 @@
 -/
 import EG.Driver.Line
 import EG.Model.Triangle
+import EG.Model.TriangleAligned
 namespace EG.Driver
 open EG
 
@@ -40,6 +41,12 @@ def handleTri (stream : String) (t : Toks) : Option String :=
   | "tri.outline" =>
     let (tri, _) := triOf t
     let px := (tri.outlinePixels 1).map (·.1)
+    some s!"px={fmtPtsDigest px} n={triDistinct px}"
+  | "tri.outline_al" =>
+    let (tri, t) := triOf t
+    let (a, _) := t.nat
+    let al : TriAlign := if a == 0 then .inside else if a == 1 then .center else .outside
+    let px := (tri.outlinePixelsAligned 1 al).map (·.1)
     some s!"px={fmtPtsDigest px} n={triDistinct px}"
   | "tri.pair" =>
     let (a, t) := t.pt
